@@ -328,3 +328,33 @@ def check_rollback_possible(ctx, consequence: str):
                               f"journal mode {mode} for schema {schema}: ROLLBACK cannot undo writes there: {consequence}", "a mode that keeps a rollback journal", where=f"stepup/core/{mod.path.name}:{node.lineno}")
     if n == 0:
         raise AnalysisError("no journal_mode pragma found (connection settings moved)")
+
+
+def _failed_selector(ctx, fq):
+    """(found, include_detached) for the `<workflow>.steps(StepState.FAILED, ...)` call of a function."""
+    fi = ctx.prog.func(fq)
+    for c in calls_in(fi.node):
+        if callee_name(c) == "steps" and c.args and ast.unparse(c.args[0]) == "StepState.FAILED":
+            k = [kw for kw in c.keywords if kw.arg == "include_detached"]
+            return fi, c, bool(k) and ast.unparse(k[0].value) == "True"
+    return fi, None, False
+
+
+def check_failed_steps_retried(ctx, consequence: str):
+    """Both places that retry FAILED steps (startup after a kill, start of a watch-mode rebuild) select detached
+    steps too and send every selected step through mark_step_pending."""
+    import re
+
+    sel = {}
+    for fq in ("startup.reset_interrupted_steps", "director.DirectorHandler.start_build_phase"):
+        fi, call, incl = _failed_selector(ctx, fq)
+        if call is None:
+            raise AnalysisError(f"{fq} no longer selects FAILED steps through Workflow.steps")
+        src = re.sub(r"\s+", " ", ast.unparse(fi.node))
+        ctx.check("mark_step_pending(step)" in src, fq, "every selected FAILED step goes through mark_step_pending", "FAILED steps are not run through the ordinary invalidation (BUILT outputs of an interrupted step stay trusted)", "mark_step_pending")
+        ctx.check(incl, fq, "the retry also covers detached FAILED steps", consequence, "include_detached=True", where=ctx.where_of(fi, call))
+        sel[fq] = incl
+    ctx.check(len(set(sel.values())) == 1, "startup.reset_interrupted_steps", "restart and watch-mode rebuild retry the same FAILED steps", f"selectors differ: {sel}", "same selector")
+    ws = ctx.prog.func("workflow.Workflow.steps")
+    src = re.sub(r"\s+", " ", ast.unparse(ws.node))
+    ctx.check("if not include_detached: sql += ' AND NOT detached'" in src, ws.fq, "Workflow.steps filters detached steps unless asked not to", "include_detached no longer removes the filter (or the default includes detached steps)", "conditional filter")
